@@ -1,4 +1,5 @@
 import MxModel.Proofs.C3
+import MxModel.Proofs.StructMechCor
 /-!
 # C03 – derived members equal re-derivation from defined members along the C3 order
 
@@ -8,9 +9,12 @@ theorems characterise them for all inheritance graphs and all member tables; the
 modelx's *incrementally maintained* state to them after every operation (see
 harness/mxh/props/c03.py): the derived members modelx holds must be exactly `derive` of its
 own defined members, and `bases` must be `mro` of its own direct-base lists.
-What is not a theorem: that modelx's incremental maintenance (`on_inherit`, `new_cells`,
-`set_cells_property`, `change_ref`, `add_bases`, …) computes this function – that is the
-correspondence; four places where it did not were repaired by `fix:` commits.
+The incremental maintenance itself (`SpaceManager` / `SpaceUpdater` / `on_inherit`) is modelled
+operation by operation in `Struct/Mech.lean` (`MxModel.SM`, tied to the code by the `smech`
+correspondence: accept/refuse and the whole structural state after every edit).  For that mechanism
+`mech_refines_derivation` proves, for every operation sequence without bound, that the member table
+of every space of every reachable state *is* the derivation from scratch
+(`Proofs/StructMech*.lean`: invariant `SM.Inv`, preserved by each of the twelve operations).
 -/
 namespace MxModel.C03
 open MxModel.C3 MxModel.Struct
@@ -160,5 +164,107 @@ def dCells : String → List String
 example : mro dBases 5 "D" = some ["D", "B", "C", "A"] := by decide
 example : derive ["B", "C", "A"] dCells [] = [("g", "B"), ("f", "C"), ("y", "A")] := by decide
 example : mro dBases 5 "E" = none := by decide
+
+/-! ## The incremental mechanism refines derivation from scratch -/
+
+section mechanism
+open MxModel.SM
+
+/-- **Incremental maintenance always equals derivation from scratch.**  After any sequence of
+operations of the mechanism model (creating and deleting spaces, cells and references, redefining,
+renaming, adding and removing bases, model-level references; refused operations change nothing),
+for every space `q`, kind `a` (cells / references) and name `n`: the space holds its own
+definition of `n` if it has one; otherwise one derived copy carrying the payload (formula / value)
+of the **first** space along the tail of `q`'s C3 linearisation that defines `n`; otherwise
+nothing. -/
+theorem mech_refines_derivation (kw : List String) (ops : List Op) (a : Attr) (q : Path) (n : String) :
+    (St.run kw {} ops).mem a q n =
+      match (St.run kw {} ops).defd a q n with
+      | some v => some { derived := false, payload := v }
+      | none => ((St.run kw {} ops).firstDef a ((St.run kw {} ops).tail q) n).map
+          (fun d => { derived := true, payload := d.2 }) :=
+  (run_inv kw ops).mem_eq_derivation a q n
+
+/-- the two directions the property statement names: a derived member has a first definer in the
+linearisation and carries its payload; a name the space does not have is defined nowhere along
+its linearisation -/
+theorem mech_derived_from_first_definer (kw : List String) (ops : List Op) (a : Attr) (q : Path)
+    (n : String) :
+    (∀ m, (St.run kw {} ops).mem a q n = some m → m.derived = true →
+      ∃ b, (St.run kw {} ops).firstDef a ((St.run kw {} ops).tail q) n = some (b, m.payload)) ∧
+    ((St.run kw {} ops).mem a q n = none →
+      (St.run kw {} ops).firstDef a ((St.run kw {} ops).tail q) n = none) := by
+  have hg := (run_inv kw ops).good a q n
+  unfold Good1 at hg
+  constructor
+  · intro m hm hd
+    rw [hm] at hg
+    exact hg hd
+  · intro hm
+    rw [hm] at hg
+    exact hg
+
+/-- … and conversely **exactly one derived copy of every inherited, not locally defined name**:
+the names under which a reachable space holds a derived member are the names `derive` (the
+specification above) computes from the linearisation and the *defined* names. -/
+theorem mech_derived_names_eq_derive (kw : List String) (ops : List Op) (a : Attr) (q : Path) (n : String) :
+    n ∈ (derive ((St.run kw {} ops).tail q) ((St.run kw {} ops).definedNames a)
+        ((St.run kw {} ops).definedNames a q)).map (·.1) ↔
+      ∃ m, (St.run kw {} ops).mem a q n = some m ∧ m.derived = true := by
+  have hinv := run_inv kw ops
+  generalize St.run kw {} ops = st at hinv
+  rw [derived_iff, mem_definedNames_iff hinv.wf.keys]
+  have hm := hinv.mem_eq_derivation a q n
+  constructor
+  · rintro ⟨hown, b, hb, hnb⟩
+    rw [mem_definedNames_iff hinv.wf.keys] at hnb
+    have hd : st.defd a q n = none := by
+      cases hx : st.defd a q n with
+      | none => rfl
+      | some _ => rw [hx] at hown; simp at hown
+    rw [hd] at hm
+    obtain ⟨d, hd'⟩ := firstDef_isSome_of st a _ n b hb hnb
+    rw [hd'] at hm
+    exact ⟨_, hm, rfl⟩
+  · rintro ⟨m, hmm, hder⟩
+    cases hd : st.defd a q n with
+    | some v =>
+      rw [hd, hmm] at hm
+      simp only [Option.some.injEq] at hm
+      rw [hm] at hder; cases hder
+    | none =>
+      refine ⟨by simp, ?_⟩
+      rw [hd, hmm] at hm
+      cases hf : st.firstDef a (st.tail q) n with
+      | none => rw [hf] at hm; cases hm
+      | some d =>
+        obtain ⟨h1, h2⟩ := firstDef_some st a _ n d.1 d.2 hf
+        exact ⟨d.1, h1, (mem_definedNames_iff hinv.wf.keys a d.1 n).mpr (by rw [h2]; rfl)⟩
+
+/-- **`bases` reports the linearisation** for the mechanism too: in every reachable state every
+space has a C3 linearisation (`St.mro` is the kernel `C3.mro` on the direct-base lists, depth bound
+= number of spaces + 1), and it starts with the space. -/
+theorem mech_linearisation_exists (kw : List String) (ops : List Op) (q : Path) :
+    (St.run kw {} ops).mro q = some (q :: (St.run kw {} ops).tail q) :=
+  (run_inv kw ops).wf.mro_all q
+
+/-! Non-vacuity: the diamond `D(B, C)`, `B(A)`, `C(A)`, `f` defined in `A` and redefined in `C`:
+`D.f` is the derived copy of `C.f`; after `C.f` is deleted it is the copy of `A.f`; after the base
+`A` is removed from `B` and `C` … -/
+def diamondOps : List Op := [
+  .newSpace [] "A" [], .newCells ["A"] "f" 1, .newSpace [] "B" [["A"]], .newSpace [] "C" [["A"]],
+  .setFormula ["C"] "f" 2, .newSpace [] "D" [["B"], ["C"]]]
+
+example : (St.run [] {} diamondOps).mem .cells ["D"] "f" = some { derived := true, payload := 2 } := by decide
+example : (St.run [] {} diamondOps).tail ["D"] = [["B"], ["C"], ["A"]] := by decide
+example : (St.run [] {} (diamondOps ++ [.delCells ["C"] "f"])).mem .cells ["D"] "f"
+    = some { derived := true, payload := 1 } := by decide
+example : (St.run [] {} (diamondOps ++ [.delCells ["A"] "f"])).mem .cells ["B"] "f" = none := by decide
+example : (St.run [] {} (diamondOps ++ [.delCells ["A"] "f"])).mem .cells ["D"] "f"
+    = some { derived := true, payload := 2 } := by decide
+-- an operation that is refused (`E(A, B)` has no linearisation)
+example : ((St.run [] {} diamondOps).step [] (.newSpace [] "E" [["A"], ["B"]])).2 = false := by decide
+
+end mechanism
 
 end MxModel.C03
